@@ -72,7 +72,7 @@ def c04_extra(rep, rnd, first_id):
 
 
 CHECKS["C04"] = CodecCheck(
-    "C04", {"layout", "sizeagree", "load"},
+    "C04", {"layout", "sizeagree", "write-count", "load"},
     rule=RAND_RULE + "an extra family uses fixed-size members only, for which len(T), sizeof(T) evaluated by a real Expression, "
          "bytes consumed and bytes dumped are compared with SizeOf; non-trivial = layout (size, alignment, all offsets) compared "
          "with CLayout",
